@@ -26,7 +26,7 @@ def run_docstring(cfg, ir):
     from harness import real
 
     text, back = real.rt_docstring(ir, style=cfg["style"], edd=cfg["edd"], et=cfg["et"], ww=cfg.get("ww", True),
-                                   parse_edd=False)
+                                   parse_edd=None if cfg.get("keep") else False)
     return text, real.plain(back)
 
 
@@ -53,6 +53,24 @@ RUNNERS = {"docstring": run_docstring, "format": run_format}
 
 
 def judge_case(args):
+    """a case whose description is "long" is judged for a sweep of description lengths (the first failing length is reported)"""
+    case = args[0]
+    if any(p.get("doc") == "long" for p in case["i"]["params"]):
+        res = None
+        for n in range(40, 150, 2):
+            G.LONG_LEN[0] = n
+            try:
+                res = _judge_case(args)
+            finally:
+                G.LONG_LEN[0] = 120
+            if res["verdict"] != "held":
+                res["long_len"] = n
+                return res
+        return res
+    return _judge_case(args)
+
+
+def _judge_case(args):
     case, seed, runner = args
     g = G.Gamma(seed)
     salt = salt_of(case, seed)
@@ -64,7 +82,7 @@ def judge_case(args):
     except Exception as e:  # noqa
         art, real, raised = None, None, type(e).__name__
     res = {"salt": salt, "raised": raised, "art": art if isinstance(art, str) else None}
-    if runner == "docstring" and isinstance(art, str) and "lines" in case:
+    if runner == "docstring" and isinstance(art, str) and "lines" in case and not any(p.get("doc") == "long" for p in case["i"]["params"]):
         from harness import doclines
         try:
             res["line_drift"] = doclines.drift(case, art, list(ir["params"].keys()))
@@ -72,7 +90,7 @@ def judge_case(args):
             res["line_drift"] = "tokeniser failed: {!r}".format(e)
     exp = case["exp"]
     # a configuration that asks for the default to be documented in prose gets that sentence back in the description
-    strip = runner == "format" and bool(case["cfg"].get("edd"))
+    strip = (runner == "format" and bool(case["cfg"].get("edd"))) or bool(case["cfg"].get("keep"))
     if raised is None and exp["raises"] == "no":
         d = G.compare(real, g.expected(exp, case["i"], salt), strip)
         if not d:
